@@ -47,10 +47,14 @@ def make_graph(rng, shape):
     """files: path -> statements; main statements."""
     types = gen.Types(rng)
     nfiles = {"chain": rng.randint(2, 4), "diamond": 4, "cycle": rng.randint(2, 3), "self": 1,
-              "twice": 2, "subdir": 2, "main_cycle": 2}[shape]
+              "twice": 2, "subdir": 2, "main_cycle": 2, "dotdot_diamond": 2, "dotdot_cycle": 2}[shape]
     names = ["f%d.facto" % i for i in range(nfiles)]
     if shape == "subdir":
         names[1] = "sub/f1.facto"
+    if shape == "dotdot_diamond":
+        names = ["common/util.facto", "modules/scaler.facto"]
+    if shape == "dotdot_cycle":
+        names = ["left/x.facto", "right/y.facto"]
     files = {n: [] for n in names}
     funcs = []
     for i, n in enumerate(names):
@@ -95,6 +99,14 @@ def make_graph(rng, shape):
         imp(names[0], names[1])
         imp(names[1], "main.facto")
         main_imports = [names[0]]
+    elif shape == "dotdot_diamond":
+        # one file reached under two spellings: directly and through ../ from a sibling directory
+        imp(names[1], "../common/util.facto")
+        main_imports = [names[0], names[1]] if rng.random() < 0.5 else [names[1], names[0]]
+    elif shape == "dotdot_cycle":
+        imp(names[0], "../right/y.facto")
+        imp(names[1], "../left/x.facto")
+        main_imports = [names[0]]
     main = [["import", p] for p in main_imports]
     main.append(["input", "a", types.fresh(), gen.rand_value(rng, True)])
     for j, fn in enumerate(funcs):
@@ -109,6 +121,7 @@ def interp_files(files):
     for p, st in files.items():
         if "/" in p:
             out.setdefault(p.split("/")[-1], st)
+            out.setdefault("../" + p, st)      # the spelling used from a sibling directory
     return out
 
 
@@ -128,6 +141,8 @@ def run_graph(case):
         other = os.path.join(root, "elsewhere")
         os.makedirs(other)
         for p, st in files.items():
+            os.makedirs(os.path.dirname(os.path.join(proj, p)), exist_ok=True)
+            os.makedirs(os.path.dirname(os.path.join(decoy, p)), exist_ok=True)
             with open(os.path.join(proj, p), "w") as f:
                 f.write(lang.to_source(st)[0])
             # decoys: same names, a body that would change every result
@@ -335,8 +350,8 @@ def run_lib(case):
 def gen_cases(tier, seed):
     rng = random.Random(17000059 * seed + 47)
     cases = []
-    ngraph = 42 if tier == "quick" else 600
-    shapes = ["chain", "diamond", "cycle", "self", "twice", "subdir", "main_cycle"]
+    ngraph = 45 if tier == "quick" else 630
+    shapes = ["chain", "diamond", "cycle", "self", "twice", "subdir", "main_cycle", "dotdot_diamond", "dotdot_cycle"]
     for i in range(ngraph):
         sub = random.Random(rng.randrange(1 << 60))
         shape = shapes[i % len(shapes)]
